@@ -390,10 +390,17 @@ def run(chk, replay=None):
     case = {"k": "http", "sessions": sessions, "sleep_ms": 2300, "reqs": [r for r, _ in reqs],
             "env": {"RNACOS_ENABLE_NO_AUTH_CONSOLE": "false"}}
     t0 = time.time()
-    res = lib.harness_run("console", [case], timeout=1500)[0]
-    if res.get("r") != "ok":        # start-up of the in-process node failed: one fresh attempt
-        chk.notes["http_sweep_retry"] = json.dumps(res)[:200]
+    # canary (first request): the manager session must reach a manager route, otherwise the in-process node did not
+    # come up properly (sessions lost during start-up) and the run is repeated once
+    canary = {"method": "GET", "uri": "/rnacos/api/console/v2/cluster/cluster_node_list", "headers": [["Token", "tok-m"]]}
+    case["reqs"] = [canary] + case["reqs"]
+    for attempt in (1, 2):
         res = lib.harness_run("console", [case], timeout=1500)[0]
+        if res.get("r") == "ok" and res["out"] and res["out"][0].get("forwarded"):
+            break
+        chk.notes["http_sweep_retry"] = json.dumps(res)[:200]
+    if res.get("r") == "ok":
+        res["out"] = res["out"][1:]
     chk.notes["http_sweep_s"] = round(time.time() - t0, 1)
     if res.get("r") != "ok":
         chk.violation("console/http harness case failed: %s" % json.dumps(res)[:300], {"suite": "console", "broken": "harness", "result": res}, False)
